@@ -8,6 +8,9 @@ pub fn main() {
         }
         return;
     }
+    if args.len() >= 3 && args[1] == "--witness" {
+        std::process::exit(vk_curves::witness::run(&args[2]));
+    }
     if args.len() < 2 {
         eprintln!("usage: replay <harness> <hex,hex,...> | --list");
         std::process::exit(2);
